@@ -2,6 +2,9 @@
 //! from_ether_type, from_ip} on arbitrary bytes, then every sub-slice stored in
 //! the result or returned by an accessor of a component, as `off+len` relative
 //! to the input, in the order of `SlicedPacketA.windows` (coq/theories/Parse/Access.v).
+//! Entries `leth`, `lip`, `let:<n>`: the same for LaxSlicedPacket::{from_ethernet, from_ip,
+//! from_ether_type} in the order of `LaxSlicedPacketA.windows` (Parse/LaxAccess.v), the
+//! last window being LaxSlicedPacket::ether_payload(); vlan_ids() is called as well.
 use etherparse::*;
 use vh::*;
 
@@ -13,6 +16,9 @@ fn run(line: &str) -> String {
     let mut it = line.split_whitespace();
     let entry = it.next().unwrap();
     let data = unhex(it.next().unwrap());
+    if entry.starts_with('l') {
+        return run_lax(entry, &data);
+    }
     let r = if entry == "eth" {
         SlicedPacket::from_ethernet(&data)
     } else if entry == "sll" {
@@ -130,4 +136,159 @@ fn run(line: &str) -> String {
         None => {}
     }
     format!("ok {}", if w.is_empty() { "-".to_string() } else { w.join(",") })
+}
+
+/// lax whole-packet entry points (extend-c01b)
+fn run_lax(entry: &str, data: &[u8]) -> String {
+    let p = if entry == "leth" {
+        match LaxSlicedPacket::from_ethernet(data) {
+            Ok(p) => p,
+            Err(_) => return "err".to_string(),
+        }
+    } else if entry == "lip" {
+        match LaxSlicedPacket::from_ip(data) {
+            Ok(p) => p,
+            Err(_) => return "err".to_string(),
+        }
+    } else if let Some(et) = entry.strip_prefix("let:") {
+        LaxSlicedPacket::from_ether_type(EtherType(et.parse().unwrap()), data)
+    } else {
+        panic!("bad entry {}", entry)
+    };
+    let base: &[u8] = data;
+    let mut w: Vec<String> = Vec::new();
+    let mut put = |s: &[u8]| w.push(off(base, s));
+    match &p.link {
+        Some(LinkSlice::Ethernet2(e)) => {
+            put(e.slice());
+            put(e.header_slice());
+            put(e.payload_slice());
+        }
+        Some(LinkSlice::LinuxSll(s)) => {
+            put(s.header_slice());
+            put(s.slice());
+            put(s.sender_address());
+            put(s.payload_slice());
+        }
+        Some(LinkSlice::EtherPayload(e)) => put(e.payload),
+        Some(LinkSlice::LinuxSllPayload(e)) => put(e.payload),
+        None => {}
+    }
+    for x in p.link_exts.iter() {
+        // LaxLinkExtSlice accessors
+        let _ = x.header_len();
+        let _ = x.to_header();
+        let _ = x.payload();
+        match x {
+            LaxLinkExtSlice::Vlan(v) => {
+                put(v.slice());
+                put(v.header_slice());
+                put(v.payload_slice());
+            }
+            LaxLinkExtSlice::Macsec(m) => {
+                let _ = m.next_ether_type();
+                let _ = m.ether_payload();
+                put(m.header.slice());
+                match &m.payload {
+                    LaxMacsecPayloadSlice::Unmodified(e) => put(e.payload),
+                    LaxMacsecPayloadSlice::Modified { payload, .. } => put(payload),
+                }
+            }
+        }
+    }
+    match &p.net {
+        Some(LaxNetSlice::Ipv4(v)) => {
+            let _ = v.is_payload_fragmented();
+            put(v.header().slice());
+            put(v.payload().payload);
+            if let Some(a) = v.extensions().auth {
+                put(a.slice());
+            }
+            put(v.header().options());
+            if let Some(a) = v.extensions().auth {
+                put(a.raw_icv());
+                let _ = a.to_header();
+            }
+        }
+        Some(LaxNetSlice::Ipv6(v)) => {
+            let _ = v.is_payload_fragmented();
+            put(v.header().slice());
+            put(v.extensions().slice());
+            put(v.payload().payload);
+            for e in v.extensions().clone().into_iter() {
+                match e {
+                    Ipv6ExtensionSlice::HopByHop(r) => put(r.slice()),
+                    Ipv6ExtensionSlice::Routing(r) => put(r.slice()),
+                    Ipv6ExtensionSlice::DestinationOptions(r) => put(r.slice()),
+                    Ipv6ExtensionSlice::Fragment(f) => put(f.slice()),
+                    Ipv6ExtensionSlice::Authentication(a) => put(a.slice()),
+                }
+            }
+            for e in v.extensions().clone().into_iter() {
+                match e {
+                    Ipv6ExtensionSlice::HopByHop(r) => {
+                        let _ = r.to_header();
+                        put(r.payload())
+                    }
+                    Ipv6ExtensionSlice::Routing(r) => {
+                        let _ = r.to_header();
+                        put(r.payload())
+                    }
+                    Ipv6ExtensionSlice::DestinationOptions(r) => {
+                        let _ = r.to_header();
+                        put(r.payload())
+                    }
+                    Ipv6ExtensionSlice::Fragment(f) => {
+                        let _ = f.to_header();
+                    }
+                    Ipv6ExtensionSlice::Authentication(a) => {
+                        let _ = a.to_header();
+                        put(a.raw_icv())
+                    }
+                }
+            }
+        }
+        Some(LaxNetSlice::Arp(a)) => {
+            put(a.slice());
+            put(a.sender_hw_addr());
+            put(a.sender_protocol_addr());
+            put(a.target_hw_addr());
+            put(a.target_protocol_addr());
+        }
+        None => {}
+    }
+    match &p.transport {
+        Some(TransportSlice::Udp(u)) => {
+            put(u.slice());
+            put(u.header_slice());
+            put(u.payload());
+        }
+        Some(TransportSlice::Tcp(t)) => {
+            put(t.slice());
+            put(t.header_slice());
+            put(t.payload());
+            put(t.options());
+        }
+        Some(TransportSlice::Icmpv4(i)) => {
+            put(i.slice());
+            put(i.payload());
+        }
+        Some(TransportSlice::Icmpv6(i)) => {
+            put(i.slice());
+            put(i.payload());
+        }
+        None => {}
+    }
+    // packet-level accessors
+    let _ = p.vlan();
+    let ids = p.vlan_ids();
+    let _ = p.ip_payload();
+    if let Some(e) = p.ether_payload() {
+        put(e.payload);
+    }
+    format!(
+        "ok {} ids={}",
+        if w.is_empty() { "-".to_string() } else { w.join(",") },
+        ids.iter().map(|v| format!("{}", v.value())).collect::<Vec<_>>().join("/")
+    )
 }
